@@ -91,5 +91,12 @@ CLASSES = {
                    "objective": "LinExpr"},
     },
     "AlignedRead": {"kind": "opaque"},
+    # the four pysam.AlignedSegment attributes aldy.sam._in_region reads (reference_name is None for an
+    # unaligned read; reference_end is None when the read has no CIGAR)
+    "AlignedSegment": {
+        "kind": "obj",
+        "fields": {"reference_id": "int", "reference_name": "Optional[str]", "reference_start": "int",
+                   "reference_end": "Optional[int]"},
+    },
     "File": {"kind": "opaque"},
 }
